@@ -93,6 +93,7 @@ def worker_main(pid: str, shard_file: str, out_file: str):
         print(f"werkzeug imported from {wf}, not from {src}", file=sys.stderr)
         sys.exit(3)
     shard = json.load(open(shard_file))
+    linecov = _start_line_reach(src) if os.environ.get("VERIF_LINECOV") else None
     mod = load_prop(pid)
     rec = Recorder(pid, shard)
     rec.obs["_worker_started"] = 1
@@ -114,6 +115,41 @@ def worker_main(pid: str, shard_file: str, out_file: str):
     rec.obs["_werkzeug_file"] = 0
     rec.notes.insert(0, f"werkzeug={wf}")
     rec.dump(out_file)
+    if linecov is not None:
+        d = os.environ["VERIF_LINECOV"]
+        os.makedirs(d, exist_ok=True)
+        with open(os.path.join(d, f"{pid}-{os.getpid()}.json"), "w") as f:
+            json.dump({k: sorted(v) for k, v in linecov.items()}, f)
+
+
+def _start_line_reach(src):
+    """Opt-in (VERIF_LINECOV=<dir>): which lines of werkzeug did this worker's workload execute?  A sys.monitoring LINE
+    callback that records the location once and disables itself for it, so the cost is one callback per distinct
+    line.  tools/line_reach.py merges the per-worker files and lists the lines of the anchored functions that no
+    workload reached - the map of what the monitors cannot have an opinion on."""
+    mon = sys.monitoring
+    tool = mon.COVERAGE_ID
+    prefix = os.path.realpath(src) + os.sep
+    seen: dict[str, set] = {}
+    names: dict[str, str | None] = {}
+
+    def on_line(code, line):
+        fn = code.co_filename
+        rel = names.get(fn)
+        if rel is None and fn not in names:
+            real = os.path.realpath(fn)
+            rel = names[fn] = real[len(prefix):] if real.startswith(prefix) else None
+        if rel is not None:
+            seen.setdefault(rel, set()).add(line)
+        return mon.DISABLE
+
+    try:
+        mon.use_tool_id(tool, "verif-line-reach")
+    except ValueError:
+        return None
+    mon.register_callback(tool, mon.events.LINE, on_line)
+    mon.set_events(tool, mon.events.LINE)
+    return seen
 
 
 # ---------------------------------------------------------------------------------------------
